@@ -260,6 +260,21 @@ C08(sn, calls, res) ==
         (IsRevUpdate(calls[k]) /\ Det(calls[k]) = "renumber" /\ ~OK(calls[k])) =>
            \E j \in (k + 1)..Len(calls) : IsRevUpdate(calls[j]) /\ Det(calls[j]) = "renumber" /\ Name(calls[j]) = Name(calls[k]) /\ OK(calls[j])
 
+(* C02, local form - no false quiescence: when nothing is pending (every pod of the set is  *)
+(* there, owned, Running, Ready, not terminating, nothing is left outside the desired set, no *)
+(* call failed) a RollingUpdate reconcile that still sees a pod at or above the partition at  *)
+(* another revision than the update revision takes one down - whichever revision that is.     *)
+(* Together with C05 / C14 (creation, scale-in) this is the step argument of convergence: a   *)
+(* reconcile that does nothing although no event is outstanding is a dead end of the history. *)
+C02Local(sn, calls, res) ==
+  LET u == UpdObs(sn, calls) IN
+  (/\ sn.set.cached /\ ~sn.set.paused /\ ~sn.set.deleting /\ sn.set.selectorOK
+   /\ sn.fresh.exists /\ sn.fresh.sameUid /\ ~sn.fresh.deleting /\ ~InTransit(sn.revs)
+   /\ FaultFree(calls) /\ res = "ok" /\ sn.set.strat = "RollingUpdate"
+   /\ \A p \in PodsOf(sn) : IsPartOf(sn, p) /\ p.owner = "self" /\ HealthyP(p) /\ p.ord \in D(sn)
+   /\ \A i \in D(sn) : PartAt(sn, i) # {})
+  => ((\E p \in Parts(sn) : p.ord >= Partition(sn) /\ p.rev # u) => UpdateDeletes(sn, calls) # {})
+
 (* C10 - ownership                                                                     *)
 ForeignPod(p) == p.owner \in {"other", "stale"}
 ForeignRev(x) == x.owner \in {"other", "stale"}
